@@ -13,6 +13,11 @@ Four streams, all on the REAL code:
   (3) relying party: the same with RP histories (pending authorizations, nonce bindings, tokens).
   (4) ImpExp codec: dump_attr / load_attr / dump / load of real ImpExp instances against Model/ImpExp.v and the
       regenerated `parameter` tables.
+  (2b) sessions and sharing: histories in which a session is changed through the API AFTER the restore and then resolved
+      by its id (cookie issued before the dump, end-session, look-ups), chains of exports, and the sharing census: objects
+      that are ONE object in the live provider but are written at two places of the export (a grant filed a second time
+      under its session id, usage-rule dicts / scope lists shared by grant and tokens, one authentication event behind two
+      grants) are separate copies after a restore; the model (Model/ImpExp.v, sdb) says when that cannot be noticed.
 """
 import base64
 import binascii
@@ -33,10 +38,24 @@ RULE = ("(1) file-store traces of 8-40 ops (set/get/del/in/keys/items/len/clear/
         "(2) provider histories of 8-16 ops generated adaptively (authorize, redeem, refresh, revoke, introspect, userinfo, "
         "tick, dynamic registration + read, PAR + redemption, client_secret_jwt with jti replay, wrong client / wrong class / "
         "garbage tokens), dumped and restored after EVERY prefix, per configuration kind; non-trivial = the suffix contains "
-        "an op whose outcome depends on pre-dump state. (3) RP histories likewise. (4) codec cases: every type marker x "
+        "an op whose outcome depends on pre-dump state. Cookie keys are pinned by a key file, so session cookies issued before "
+        "the export are presented to the restored twin. Session histories (fixed SESSION_MATRIX + adaptive ones with 45% session "
+        "steps and a closing battery aimed at the sessions whose objects lost a sharing relation in a trial restore): "
+        "cookie re-authorization (same request / new scope / other client) against cookies issued before the dump, API-level "
+        "revoke_client_session / revoke_grant / revoke_sub_tree(user) / remove_session / revoke_token(recursive) / verified "
+        "logout (one, all), end-session with id_token_hint, read-only look-ups by session id (session_manager[sid], get_grant, "
+        "get_session_info, get_grant_argument, authentication events, grants, find_token) as operations AND as probes after "
+        "every step on both twins, re-export -> import of the restored twin in mid-continuation (chains); sharing census by "
+        "id() over the session database / grant-token graph / context tables at every crash point: pairs of access paths that "
+        "lead to one object in the original are resolved in the twin (kept / lost / lost-and-stale counted; look-ups of ONE "
+        "session that hand out one object in the original must hand out one object in the twin); non-trivial = a session is "
+        "changed AFTER the restore and then resolved by its id. The storage operations of these histories (write log of the "
+        "original's DLDict + in-place changes) run through Model.ImpExp sd_dump / sd_load / sd_exec / sd_lookup (chk_share). "
+        "(3) RP histories likewise. (4) codec cases: every type marker x "
         "JSON-like values incl. 'BYTES:' strings, 'upstream_get' / 'class' keys; real Item/SessionToken/Grant/NodeInfo/"
         "Current instances (random and harvested from the live provider)")
-ASSUMPTIONS = ["str.encode('utf-8') / decode round-trips (keys and values are modelled as UTF-8 byte / code point strings)",
+ASSUMPTIONS = ["the cookie protection keys are configured key material (key file): a twin built from the same configuration reads cookies issued before the export",
+               "str.encode('utf-8') / decode round-trips (keys and values are modelled as UTF-8 byte / code point strings)",
                "the filesystem keeps what was written; file modification times order writes (single writer per directory)",
                "json.dumps / json.loads round-trip JSON-like values; Message.to_dict / from_dict round-trip (C10)",
                "Fernet / the JWS library are deterministic functions of their keys (same key material => same acceptance)",
@@ -51,6 +70,8 @@ SIG_PARJSON = "dump-not-json-pending-par"
 SIG_RESTORE = "restore-diverges"
 SIG_REDUMP = "dump-after-load-differs"
 SIG_RP = "rp-restore-diverges"
+SIG_LOOKUP = "restore-lookup-diverges"
+SIG_SPLIT = "restore-splits-shared-object"
 
 
 def coq_bytes(b):
@@ -353,6 +374,453 @@ def next_op(rng, P, jti_ctr, rich):
     return ("authz_par", i, rng.choice(srv_c13.USERS), rng.choice(["client_1", "client_3"]))
 
 
+
+# ---------------------------------------------------------------------------------------- sharing (aliases)
+ATOMS = (str, bytes, int, float, bool, type(None), type)
+
+
+def _children(o):
+    """the mutable parts of one object of the provider's state, as (step, child)"""
+    from idpyoidc.message import Message
+    from idpyoidc.item import DLDict
+    from idpyoidc.impexp import ImpExp
+    if isinstance(o, dict):
+        return [(("k", str(k)), v) for k, v in o.items()]
+    if isinstance(o, (list, tuple)):
+        return [(("i", i), v) for i, v in enumerate(o)]
+    if isinstance(o, Message):
+        return [(("m", str(k)), v) for k, v in o._dict.items()]
+    if isinstance(o, DLDict):
+        return [(("k", str(k)), v) for k, v in o.db.items()]
+    if isinstance(o, ImpExp):
+        names = list(getattr(type(o), "parameter", {})) + list(getattr(type(o), "special_load_dump", {}))
+        return [(("a", a), getattr(o, a)) for a in names if a not in ("upstream_get",) and hasattr(o, a)]
+    return []
+
+
+def graph_roots(P):
+    sm = P.ctx.session_manager
+    roots = [(("db",), sm.db)]
+    for a in ("cdb", "jti_db", "par_db", "registration_access_token"):
+        v = getattr(P.ctx, a, None)
+        if v is not None:
+            roots.append(((a,), v))
+    return roots
+
+
+def alias_census(P, limit=20000):
+    """every access path (from the session database and the context's exported tables) to every mutable object;
+    returns {id: (object, [paths])} - objects are kept alive, so ids stay unique"""
+    seen = {}
+    stack = list(reversed(graph_roots(P)))
+    n = 0
+    while stack and n < limit:
+        path, o = stack.pop()
+        if isinstance(o, ATOMS) or callable(o) and not hasattr(o, "dump"):
+            continue
+        n += 1
+        ent = seen.get(id(o))
+        if ent is not None:
+            ent[1].append(path)
+            continue
+        seen[id(o)] = (o, [path])
+        for step, c in reversed(_children(o)):
+            stack.append((path + (step,), c))
+    return seen
+
+
+def resolve(P, path):
+    o = None
+    for j, step in enumerate(path):
+        if j == 0:
+            o = dict((r[0][0], r[1]) for r in graph_roots(P)).get(step)
+            if o is None:
+                raise KeyError(step)
+            continue
+        kind, key = step
+        if kind == "a":
+            o = getattr(o, key)
+        elif kind == "m":
+            o = o._dict[key]
+        elif kind == "i":
+            o = o[key]
+        else:
+            o = o.db[key] if hasattr(o, "db") and not isinstance(o, dict) else o[key]
+    return o
+
+
+def path_shape(path):
+    out = []
+    for j, step in enumerate(path):
+        if j == 0:
+            out.append(step)
+        elif j == 1 and path[0] == "db":
+            n = len(step[1].split(";;"))
+            out.append({1: "[user|sid]", 2: "[client]", 3: "[grant]"}.get(n, "[?]") if n != 1 or len(step[1]) < 60 else "[sid-key]")
+        elif step[0] == "i":
+            out.append("[]")
+        elif step[0] == "k" and path[0] != "db":
+            out.append("[*]" if j == 1 else "[%s]" % step[1])
+        else:
+            out.append("." + str(step[1]))
+    return "".join(out)
+
+
+def object_view(o):
+    try:
+        d = o.dump() if hasattr(o, "dump") else (o.to_dict() if hasattr(o, "to_dict") else o)
+        return json.dumps(d, sort_keys=True, default=str)
+    except Exception as e:
+        return "<%s>" % type(e).__name__
+
+
+def sessions_of_path(P, path):
+    """indices of the sessions (P.sids) an access path into the session database belongs to"""
+    if len(path) < 2 or path[0] != "db":
+        return []
+    key = path[1][1]
+    sm = P.ctx.session_manager
+    parts = tuple(key.split(";;"))
+    if len(parts) == 1 and len(key) > 60:
+        try:
+            parts = tuple(sm.decrypt_session_id(key))
+        except Exception:
+            return []
+    return [i for i, sp in enumerate(P.spaths) if tuple(sp)[:len(parts)] == parts]
+
+
+def alias_classes(P):
+    """the sharing relation of the provider as it is now: [(shape, [paths]), ...] for every object with two or more paths"""
+    out = []
+    for oid, (o, paths) in alias_census(P).items():
+        if len(paths) >= 2:
+            out.append((type(o).__name__ + ":" + " = ".join(sorted(set(path_shape(p) for p in paths))), paths,
+                        sorted(set(i for p in paths for i in sessions_of_path(P, p)))))
+    return out
+
+
+def compare_aliases(ctx, classes, B, rec, where):
+    """pairs of access paths that reached ONE object in the original when the state was exported: are they one object
+    in the restored provider?  returns (lost classes as [(shape, paths, objects in B)], the sessions they belong to)"""
+    lost, focus = [], set()
+    for shape, paths, sess in classes:
+        try:
+            objs = [resolve(B, p) for p in paths]
+        except Exception as e:
+            ctx.violation(SIG_RESTORE, "%s: an access path of the original (%s) does not exist in the restored provider: %r"
+                          % (where, shape, e), rec)
+            continue
+        if all(x is objs[0] for x in objs):
+            ctx.count("alias:kept:" + shape)
+            continue
+        ctx.count("alias:lost:" + shape)
+        lost.append((shape, paths, objs))
+        focus.update(sess)
+    return lost, focus
+
+
+def api_paths(P):
+    """objects reached through the session manager's API for every session id / token handed out: (label, object)"""
+    sm = P.ctx.session_manager
+    out = []
+    for i, sid in enumerate(P.sids):
+        for label, f in (("sm[sid]", lambda: sm[sid]), ("get_grant(sid)", lambda: sm.get_grant(sid)),
+                         ("get_session_info(sid).grant", lambda: sm.get_session_info(sid, grant=True)["grant"]),
+                         ("get(path)", lambda: sm.get(list(P.spaths[i]))),
+                         ("get_authentication_event(sid)", lambda: sm.get_authentication_event(sid)),
+                         ("get_client_session_info(sid)", lambda: sm.get_client_session_info(sid)),
+                         ("get_user_session_info(sid)", lambda: sm.get_user_session_info(sid))):
+            try:
+                out.append(((i, label), f()))
+            except Exception:
+                pass
+        try:
+            g = sm.get_grant(sid)
+        except Exception:
+            continue
+        for n, t in enumerate(g.issued_token):
+            out.append(((i, "get_grant(sid).issued_token[%d]" % n), t))
+            try:
+                out.append(((i, "find_token(sid, value %d)" % n), sm.find_token(sid, t.value)))
+            except Exception:
+                pass
+    return out
+
+
+def api_alias_classes(P):
+    """[[labels]]: look-ups that hand out one and the same object"""
+    pa = api_paths(P)
+    classes = {}
+    for lab, o in pa:
+        if not isinstance(o, ATOMS):
+            classes.setdefault(id(o), []).append(lab)
+    return [labs for labs in classes.values() if len(labs) >= 2]
+
+
+def compare_api_aliases(ctx, classes, B, rec, where):
+    """the same at the level of the API: two look-ups that handed out one object in the original must hand out one object
+    in the restored provider when they concern the same session (a change made through one is what the other reads);
+    sharing ACROSS sessions (one authentication event behind two grants) that the export cannot express is counted and
+    left to the continuation"""
+    pb = dict(api_paths(B))
+    for labs in classes:
+        if any(l not in pb for l in labs):
+            ctx.count("alias-api:path-missing")      # (the probes compare what such a look-up answers)
+            continue
+        objs = [pb[l] for l in labs]
+        if all(x is objs[0] for x in objs):
+            ctx.count("alias-api:kept")
+            continue
+        by_session = {}
+        for l, x in zip(labs, objs):
+            by_session.setdefault(l[0], []).append((l[1], x))
+        split = [(i, [n for n, _ in v]) for i, v in by_session.items() if any(x is not v[0][1] for _, x in v)]
+        if split:
+            i, names = split[0]
+            ctx.violation(SIG_SPLIT, "%s: in the original provider %s hand out one and the same object for session %d; in the restored "
+                          "provider they hand out different objects (a later change through one is not seen through the other)"
+                          % (where, " / ".join(names), i), rec)
+            return True
+        else:
+            ctx.count("alias-api:lost-across-sessions:" + "=".join(sorted(set(l[1].split("(")[0] for l in labs))))
+
+
+
+# ---------------------------------------------------------------------------------------- Model/ImpExp.v sdb <-> the real database
+def install_write_log(P):
+    """the session database of the ORIGINAL records what is filed and removed (key, object) - the storage operations of
+    the model (SFile / SNew / SDel); changes in place are read off the objects' contents after each step"""
+    from idpyoidc.item import DLDict
+
+    class LogDL(DLDict):
+        def __setitem__(self, key, val):
+            self.wlog.append(("set", key, val))
+            self.db[key] = val
+
+        def __delitem__(self, key):
+            self.wlog.append(("del", key, None))
+            del self.db[key]
+
+    sm = P.ctx.session_manager
+    new = LogDL()
+    new.db = sm.db.db
+    new.wlog = []
+    sm.db = new
+    return new
+
+
+def key_name(P, key):
+    """database keys under names that are the same on both twins: grants made after the restore have other random ids"""
+    parts = tuple(key.split(";;"))
+    if len(parts) == 3:
+        return "g%d" % P.spaths.index(parts) if parts in P.spaths else "g?" + short(key)[-8:]
+    if len(parts) == 1 and len(key) > 60:
+        try:
+            path = tuple(P.ctx.session_manager.decrypt_session_id(key))
+        except Exception:
+            return "s?" + short(key)[-8:]
+        return "s%d" % P.spaths.index(path) if path in P.spaths else "s?" + short(key)[-8:]
+    return "n:" + undyn(P, key)
+
+
+def undyn(P, text):
+    """the random identifiers of dynamically registered clients -> their index (a client registered after the restore has
+    another identifier on each twin)"""
+    for i, d in enumerate(P.dyn):
+        text = text.replace(d["client_id"], "<dyn %d>" % i)
+    return text
+
+
+def node_digest(P, o):
+    """contents of a node with the random identifiers of this twin replaced (token values, session ids)"""
+    try:
+        d = o.dump()
+    except Exception as e:
+        return "<%s>" % type(e).__name__
+    for t in d.get("issued_token", []) if isinstance(d, dict) else []:
+        for body in t.values():
+            for k in ("value", "based_on", "session_id", "id"):
+                v = body.get(k)
+                if isinstance(v, str) and v:
+                    body[k] = "<tok %d>" % P.tix(v) if v in P.tokens else (P.canon_sid(v) if k == "session_id" else "<id>")
+    if isinstance(d, dict) and "subordinate" in d:
+        d["subordinate"] = [key_name(P, x) for x in d["subordinate"]]
+    return undyn(P, json.dumps(d, sort_keys=True, default=str))
+
+
+def share_views(P):
+    """(key name -> contents) of the session database and what session_manager[sid] hands out for every session"""
+    sm = P.ctx.session_manager
+    inner = sm.db.db
+    views = {key_name(P, k): node_digest(P, o) for k, o in inner.items()}
+    looks = []
+    for i, sid in enumerate(P.sids):
+        try:
+            looks.append(node_digest(P, sm[sid]))
+        except Exception:
+            looks.append(None)
+    return views, looks
+
+
+class ShareRecorder:
+    """turns the steps of the original into operations of the model"""
+
+    def __init__(self, P):
+        self.P = P
+        self.log = install_write_log(P)
+        self.objs = {}      # id -> (object, contents after the last step)
+
+    def state(self):
+        """the database as the model's sdb: [(key name, object number)], [(object number, contents)]"""
+        inner = self.P.ctx.session_manager.db.db
+        num, keys, heap = {}, [], []
+        for k, o in inner.items():
+            if id(o) not in num:
+                num[id(o)] = len(num)
+                heap.append((num[id(o)], node_digest(self.P, o)))
+            keys.append((key_name(self.P, k), num[id(o)]))
+        return keys, heap
+
+    def step_ops(self, before):
+        """before: {key: object} as it was before the step; uses the write log of the step"""
+        P = self.P
+        cur = dict(before)
+        ops = []
+        for what, key, val in self.log.wlog:
+            if what == "del":
+                cur.pop(key, None)
+                ops.append(("SDel", key))
+                continue
+            if cur.get(key) is val and (len(key) <= 60 or ";;" in key):
+                continue      # a branch key written back with the node just read from it (Database.set walks the path)
+            # (a grant filed under its session id comes from the tree: in the original this changes nothing when it is
+            #  there already, in a restored twin it replaces the copy by the tree's object)
+            k0 = next((k for k, o in cur.items() if o is val and len(k.split(";;")) == 3), None) or \
+                next((k for k, o in cur.items() if o is val and k != key), None)
+            if k0 is None and cur.get(key) is val:
+                continue
+            ops.append(("SFile", k0, key) if k0 is not None else ("SNew", key, val))
+            cur[key] = val
+        del self.log.wlog[:]
+        # changes in place of objects that existed before the step, named by their branch key
+        for oid, (o, old) in list(self.objs.items()):
+            new = node_digest(P, o)
+            if new != old:
+                ks = [k for k, x in cur.items() if x is o]
+                k = next((k for k in ks if len(k.split(";;")) == 3), ks[0] if ks else None)
+                if k is not None and not any(op[0] == "SNew" and op[2] is o for op in ops):
+                    ops.append(("SUpd", k, new))
+        inner = P.ctx.session_manager.db.db
+        self.objs = {id(o): (o, node_digest(P, o)) for o in inner.values()}
+        out = []
+        for op in ops:
+            if op[0] == "SNew":
+                out.append(("SNew", key_name(P, op[1]), node_digest(P, op[2])))
+            elif op[0] == "SFile":
+                out.append(("SFile", key_name(P, op[1]), key_name(P, op[2])))
+            elif op[0] == "SDel":
+                out.append(("SDel", key_name(P, op[1])))
+            else:
+                out.append(("SUpd", key_name(P, op[1]), op[2]))
+        return out
+
+
+def share_case(state, steps):
+    """Gallina term of one case: the database at the crash point + the later steps (contents -> small integers;
+    key names as numeric lists: string literals are what makes coqc slow)"""
+    table = {}
+    coq_str = lambda k: coq_bytes(k.encode("utf-8"))
+
+    def val(d):
+        return "(VInt %d)" % table.setdefault(d, len(table))
+
+    def oval(d):
+        return "None" if d is None else "(Some %s)" % val(d)
+
+    keys, heap = state
+    sdb = "(Build_sdb %s %s %s)" % (
+        coq_list(["(%s, %s)" % (coq_str(k), coq_nat(n)) for k, n in keys], "(pystr * loc)"),
+        coq_list(["(%s, %s)" % (coq_nat(n), val(d)) for n, d in heap], "(loc * pyval)"), coq_nat(len(heap)))
+    out = []
+    for ops, reload, va, vb, sids, la, lb in steps:
+        ot = []
+        for op in ops:
+            if op[0] in ("SNew", "SUpd"):
+                ot.append("(%s %s %s)" % (op[0], coq_str(op[1]), val(op[2])))
+            elif op[0] == "SFile":
+                ot.append("(SFile %s %s)" % (coq_str(op[1]), coq_str(op[2])))
+            else:
+                ot.append("(SDel %s)" % coq_str(op[1]))
+        ks = sorted(set(va) | set(vb))
+        out.append("(%s, %s, %s, %s, %s, %s, %s, %s)" % (
+            coq_list(ot, "sop"), coq_bool(reload), coq_list([coq_str(k) for k in ks], "pystr"),
+            coq_list([oval(va.get(k)) for k in ks], "(option pyval)"), coq_list([oval(vb.get(k)) for k in ks], "(option pyval)"),
+            coq_list(["(%s, %s)" % (coq_str("s%d" % i), coq_str("g%d" % i)) for i in sids], "(pystr * pystr)"),
+            coq_list([oval(x) for x in la], "(option pyval)"), coq_list([oval(x) for x in lb], "(option pyval)")))
+    return "(%s, %s)" % (sdb, coq_list(out, "share_step"))
+
+
+MUTATORS = [("revoke_client", False), ("revoke_grant", False), ("revoke_user", False), ("remove_session", False),
+            ("logout", False), ("logout", True)]
+
+
+def next_session_op(rng, P):
+    """operations on sessions that exist: the browser comes back with a cookie, an operator / the end-session endpoint
+    changes a session through the API, read-only look-ups by session id, one more export -> import of the restored twin"""
+    nS, nC = len(P.sids), len(P.cookies)
+    r = rng.random()
+    if r < 0.30 and nC:
+        k = rng.randrange(nC) if rng.random() < 0.4 else max(0, nC - 1 - rng.randrange(min(3, nC)))
+        user = P.cookies[k]["user"] if rng.random() < 0.85 else rng.choice(["diana", "babs"])
+        mode = rng.choice(["same", "same", "scope", "scope", "client"])
+        return ("authzc", k, user, mode, rng.choice(["client_1", "client_3"]), rng.choice(SCOPES[:5]))
+    if r < 0.50 and nS:
+        i = rng.randrange(nS)
+        if rng.random() < 0.3 and P.tokens:
+            own = [t for t in range(len(P.tokens)) if P.tclass[t] != "id_token"]
+            if own:
+                return ("api", "revoke_token", None, ("tok", rng.choice(own[-5:])), rng.random() < 0.6)
+        what, flag = rng.choice(MUTATORS)
+        return ("api", what, i, None, flag)
+    if r < 0.68 and nS:
+        i = rng.randrange(nS)
+        if rng.random() < 0.3 and P.tokens:
+            return ("lookup", "find_token", i, ("tok", rng.randrange(len(P.tokens))))
+        return ("lookup", rng.choice(["getitem", "grant", "info", "authn_event", "authn_events", "client_revoked", "grants",
+                                       "grant_argument"]), i)
+    if r < 0.80 and nC:
+        ids = [t for t in range(len(P.tokens)) if P.tclass[t] == "id_token"]
+        return ("end_session", rng.randrange(nC), ("tok", rng.choice(ids)) if ids and rng.random() < 0.7 else None,
+                rng.random() < 0.5)
+    if r < 0.90:
+        return ("redump",)
+    return None
+
+
+def closing_battery(rng, P, focus):
+    """for (at most two of) the sessions whose objects lost a sharing relation in a trial restore: a change of the session
+    through the API, then every kind of request that resolves the session id (cookie, end-session, look-ups, tokens)"""
+    ops = []
+    cand = sorted(focus) or list(range(len(P.sids)))
+    rng.shuffle(cand)
+    for i in cand[:2]:
+        what, flag = rng.choice(MUTATORS[:3] + MUTATORS[4:])
+        toks = [t for t in range(len(P.tokens)) if P.tclass[t] in ("access_token", "refresh_token")]
+        if rng.random() < 0.3 and toks:
+            ops.append(("api", "revoke_token", None, ("tok", rng.choice(toks[-4:])), True))
+        ops.append(("api", what, i, None, flag))
+        for k, c in enumerate(P.cookies):
+            if c["sidx"] == i:
+                ops.append(("authzc", k, c["user"], "same"))
+                ops.append(("authzc", k, c["user"], "scope", None, rng.choice(SCOPES[:3])))
+                ops.append(("end_session", k, None, False))
+                break
+        ops.append(("lookup", "getitem", i))
+        if toks:
+            ops.append(("introspect", ("tok", toks[-1]), "client_1"))
+    return ops
+
+
 def export(server, how):
     """the exported state as a self-contained value: JSON text when possible, else a deep copy"""
     d = server.context.dump() if how == "context" else server.context.session_manager.dump()
@@ -405,40 +873,116 @@ MATRIX = [
 ]
 
 
-def provider_history(ctx, rng, reb, kind, n, rich, how="context", fixed=None):
+# one history for the sessions: every way of changing a session through the API, each followed by the requests that
+# resolve the session id (cookie of an earlier response, end-session, look-ups, tokens), with re-exports in between
+SESSION_MATRIX = [
+    ("authz", "diana", "client_1", ["openid", "email"], "code"),                  # 0: code 0, session 0, cookie 0
+    ("token", ("tok", 0), "client_1", None, "client_1"),                          # 1: tokens 1 (access), 2 (id)
+    ("authz", "babs", "client_3", ["openid", "offline_access"], "code"),          # 2: code 3, session 1, cookie 1
+    ("token", ("tok", 3), "client_3", None, "client_3"),                          # 3: tokens 4 (access), 5 (refresh), 6 (id)
+    ("authzc", 0, "diana", "same"),                                               # 4: single sign-on, same grant: code 7, cookie 2
+    ("authzc", 0, "diana", "scope", None, ["openid"]),                            # 5: new grant on the old authentication: session 2, code 8, cookie 3
+    ("lookup", "info", 0),                                                        # 6
+    ("end_session", 0, ("tok", 2), True),                                         # 7
+    ("api", "revoke_token", None, ("tok", 1), True),                              # 8
+    ("userinfo", ("tok", 1)),                                                     # 9: revoked
+    ("token", ("tok", 8), "client_1", None, "client_1"),                          # 10: the second grant mints: tokens 9, 10
+    ("redump",),                                                                  # 11
+    ("api", "revoke_client", 0, None, False),                                     # 12: sessions 0 and 2 die
+    ("authzc", 0, "diana", "same"),                                               # 13: login demanded
+    ("authzc", 3, "diana", "same"),                                               # 14: login demanded
+    ("userinfo", ("tok", 9)),                                                     # 15: dead
+    ("introspect", ("tok", 4), "client_3"),                                       # 16: babs untouched
+    ("api", "logout", 1, None, True),                                             # 17: babs logs out everywhere
+    ("authzc", 1, "babs", "same"),                                                # 18
+    ("refresh", ("tok", 5), "client_3", None, None),                              # 19
+    ("authz", "diana", "client_1", ["openid", "email"], "code"),                  # 20: new login: session 3, code 11, cookie
+    ("redump",),                                                                  # 21
+    ("token", ("tok", 11), "client_1", None, "client_1"),                         # 22
+    ("api", "revoke_grant", 3, None, False),                                      # 23
+    ("authzc", 4, "diana", "same"),                                               # 24
+    ("lookup", "getitem", 3),                                                     # 25
+    ("api", "remove_session", 3, None, False),                                    # 26
+    ("lookup", "getitem", 3),                                                     # 27
+    ("authzc", 4, "diana", "scope", None, ["openid", "email"]),                   # 28: the cookie names a session that is gone
+    ("end_session", 4, None, False),                                              # 29
+]
+
+
+def restored_twin(ctx, reb, kind, how, js, alt, tab, rec, where):
+    """a fresh provider built from the same configuration, with the exported state imported; None if the import raises"""
+    import srv_c13
+    B = srv_c13.Prov(kind, reb.clock)
+    reb.rebind()
+    dump = json.loads(js) if js is not None else alt
+    try:
+        if how == "context":
+            srv_c13.restore(B.server, dump)
+        else:
+            B.ctx.session_manager.load(dump, init_args={"upstream_get": B.ctx.unit_get})
+    except Exception as e:
+        ctx.violation(SIG_RESTORE, "import of the state exported %s raises %r" % (where, e), rec)
+        return None
+    B.set_tables(tab)
+    return B
+
+
+SHARE_CASES = []
+
+
+def provider_history(ctx, rng, reb, kind, n, rich, how="context", fixed=None, p_session=0.0, battery=False, share=False):
+    """p_session: share of the steps drawn from next_session_op (cookie re-authorization, API-level revocations and
+    removals, end-session, look-ups by session id, re-export of the restored twin); battery: a trial restore after the
+    random part tells which sessions have objects whose sharing the export lost, and the history ends with a change of
+    those sessions followed by the requests that resolve their ids."""
     import srv, srv_c13
     clock = reb.clock
     clock.now = 1_700_000_000
+    kind = dict(kind, sessions=True)
     A = srv_c13.Prov(kind, clock)
     reb.rebind()
     hist, outs, snaps = [], [], []
     jti_ctr = []
     rec = {"kind": kind, "how": how, "history": hist, "outs": outs}
-    for step in range(len(fixed) if fixed else n):
-        op = fixed[step] if fixed else next_op(rng, A, jti_ctr, rich)
+    recorder = ShareRecorder(A) if share else None
+    shares = []      # per step: (model operations, database as sdb, views, look-ups) of the original
+
+    def step(op):
         hist.append(op)
-        outs.append(A.run(op))
+        before = dict(A.ctx.session_manager.db.db) if share else None
+        outs.append(["ok"] if op[0] == "redump" else A.run(op))
+        if share:
+            shares.append((recorder.step_ops(before), recorder.state()) + share_views(A))
         js, alt = export(A.server, how)
         if alt is not None and not (A.ctx.par_db and "AuthorizationRequest" in alt[1]):
             ctx.violation("dump-not-json", "exported state is not JSON-serialisable: %s" % alt[1], rec)
-        snaps.append((js, alt[0] if alt else None, A.tables(), clock.now, A.snapshot()))
-        ctx.count("prov:" + op[0])
-        ctx.count("prov-out:" + str(outs[-1][0]))
+        snaps.append((js, alt[0] if alt else None, A.tables(), clock.now, A.snapshot(), A.probes(), alias_classes(A), api_alias_classes(A)))
+        ctx.count("prov:" + op[0] + (":" + str(op[1]) if op[0] in ("api", "lookup") else ":" + str(op[3]) if op[0] == "authzc" else ""))
+        ctx.count("prov-out:" + str(outs[-1][0]) + (":authzc" if op[0] == "authzc" else ""))
+
+    for i in range(len(fixed) if fixed else n):
+        op = None
+        if fixed:
+            op = fixed[i]
+        elif p_session and rng.random() < p_session:
+            op = next_session_op(rng, A)
+        step(op or next_op(rng, A, jti_ctr, rich))
+    if battery and A.sids:
+        js, alt, tab, now = snaps[-1][:4]
+        T = restored_twin(ctx, reb, kind, how, js, alt, tab, rec, "after the random part")
+        focus = compare_aliases(ctx, snaps[-1][6], T, rec, "trial restore")[1] if T is not None else set()
+        ctx.count("battery:focus-sessions", len(focus))
+        for op in closing_battery(rng, A, focus):
+            step(op)
     end = clock.now
     depends = False
-    for i, (js, alt, tab, now, snapA) in enumerate(snaps):
-        B = srv_c13.Prov(kind, clock)
-        reb.rebind()
-        dump = json.loads(js) if js is not None else alt
-        try:
-            if how == "context":
-                srv_c13.restore(B.server, dump)
-            else:
-                B.ctx.session_manager.load(dump, init_args={"upstream_get": B.ctx.unit_get})
-        except Exception as e:
-            ctx.violation(SIG_RESTORE, "import of the state exported after step %d (%r) raises %r" % (i, hist[i], e), rec)
+    sess_dep = False
+    flags = {}
+    for i, (js, alt, tab, now, snapA, probesA, aliasA, apiA) in enumerate(snaps):
+        where = "after step %d (%r)" % (i, hist[i])
+        B = restored_twin(ctx, reb, kind, how, js, alt, tab, rec, where)
+        if B is None:
             continue
-        B.set_tables(tab)
         clock.now = now
         snapB = B.snapshot()
         if snapB != snapA:
@@ -453,18 +997,67 @@ def provider_history(ctx, rng, reb, kind, n, rich, how="context", fixed=None):
                         i, [k for k in first if first.get(k) != again.get(k)]), rec)
             except Exception as e:
                 ctx.violation(SIG_REDUMP, "re-export after import raises %r" % (e,), rec)
+        # ---- sharing: the access paths that led to one object in the original at this crash point
+        lost = compare_aliases(ctx, aliasA, B, dict(rec, restore_point=i), "restored " + where)[0]
+        if not flags.get("split"):      # (reported once per history: every later crash point shows the same split)
+            flags["split"] = compare_api_aliases(ctx, apiA, B, dict(rec, restore_point=i), "restored " + where)
+        pb = B.probes()
+        looked = pb != probesA
+        if looked:
+            d = next((x, y) for x, y in zip(pb, probesA) if x != y)
+            ctx.violation(SIG_LOOKUP, "restored %s: right after the import the look-up %s of session %d answers %s, the original %s"
+                          % (where, d[0][1], d[0][0], json.dumps(d[0][2])[:200], json.dumps(d[1][2])[:200]), dict(rec, restore_point=i))
+        msteps = []
         for j in range(i + 1, len(hist)):
-            o = B.run(hist[j])
+            if hist[j][0] == "redump":      # the restored twin is exported and imported once more; the original just runs on
+                js2, alt2 = export(B.server, how)
+                B2 = restored_twin(ctx, reb, kind, how, js2, alt2[0] if alt2 else None, B.tables(), rec, "by the twin restored %s, re-exported at step %d" % (where, j))
+                if B2 is None:
+                    break
+                B = B2
+                o = ["ok"]
+                ctx.count("chain:re-export-of-a-restored-twin")
+            else:
+                o = B.run(hist[j])
+            if share:
+                vb, lb = share_views(B)
+                n_s = min(len(lb), len(shares[j][3]))
+                msteps.append((shares[j][0], hist[j][0] == "redump", shares[j][2], vb, list(range(n_s)), shares[j][3][:n_s], lb[:n_s]))
             if o != outs[j]:
                 sig = SIG_JWKS if kind.get("pin") == "jwks_def" else SIG_RESTORE
                 ctx.violation(sig, "restored after step %d (%r): op %d %r answered %s by the restored provider, %s by the original"
                               % (i, hist[i], j, hist[j], json.dumps(o)[:300], json.dumps(outs[j])[:300]),
                               dict(rec, restore_point=i, op_index=j))
                 break
+            pb = B.probes()
+            if pb != snaps[j][5] and not looked:
+                looked = True      # (once per crash point; the history goes on: what the requests answer is judged too)
+                d = next(((x, y) for x, y in zip(pb, snaps[j][5]) if x != y), (pb[-1:] or [None], snaps[j][5][-1:] or [None]))
+                ctx.violation(SIG_LOOKUP, "restored %s: after op %d %r the look-up %s of session %s answers %s in the restored provider, %s in the original"
+                              % (where, j, hist[j], d[0][1], d[0][0], json.dumps(d[0][2])[:200], json.dumps(d[1][2])[:200]),
+                              dict(rec, restore_point=i, op_index=j))
             if outs[j][0] == "ok" and hist[j][0] in ("token", "refresh", "userinfo", "introspect", "regread", "authz_par"):
                 depends = True
+            if hist[j][0] in ("authzc", "end_session", "lookup") and outs[j][0] in ("ok", "login") and \
+                    any(h[0] == "api" and o2[0] == "ok" for h, o2 in zip(hist[i + 1:j], outs[i + 1:j])):
+                sess_dep = True        # a session changed AFTER the restore, then resolved by its id
+        else:
+            # ---- copies that went stale: objects that were one in the original and are now two with different contents
+            for shape, paths, _ in lost:
+                try:
+                    objs = [resolve(B, p) for p in paths]
+                except Exception:
+                    continue
+                if len(set(object_view(x) for x in objs)) > 1:
+                    ctx.count("alias:lost-and-stale-at-end:" + shape)
+        if share and msteps and (i % 4 == 0 or hist[i + 1][0] == "api" or not ctx.quick):
+            SHARE_CASES.append((share_case(shares[i][1], msteps),
+                                {"share": "Model.ImpExp sd_dump / sd_load / sd_exec against the session database", "kind": kind, "how": how,
+                                 "history": list(hist), "restore_point": i, "steps": len(msteps)}))
     clock.now = end
-    ctx.case_seen({"kind": kind, "how": how, "history": hist, "outs": [o[0] for o in outs]}, depends)
+    ctx.case_seen({"kind": kind, "how": how, "history": hist, "outs": [o[0] for o in outs]}, depends or sess_dep)
+    if p_session or battery:
+        ctx.count("session-history:" + ("change-then-resolve-after-restore" if sess_dep else "no-change-then-resolve"))
     return A
 
 
@@ -860,11 +1453,23 @@ def run(ctx):
                 P = provider_history(ctx, rng, reb, kind, rng.randint(8, 14) if q else rng.randint(10, 24), rich, how)
                 if r == 0:
                     live += harvest_live(P)
+        # sessions that change AFTER the restore and are then resolved by their id; sharing inside the exported state
+        for kind, how in ((kinds[0][0], "context"), (kinds[1][0], "session_manager"))[:1 if q else 2]:
+            provider_history(ctx, rng, reb, kind, 0, True, how, fixed=SESSION_MATRIX, share=True)
+        for r in range(3 if q else 30):
+            kind, how, rich = kinds[(0, 4, 1)[r % 3]]
+            provider_history(ctx, rng, reb, kind, rng.randint(9, 13) if q else rng.randint(10, 22), rich, how,
+                             p_session=0.45, battery=True, share=True)
         jwks_def_witness(ctx, reb)
         par_json_witness(ctx, reb)
     finally:
         reb.restore()
         clock.uninstall()
+    for c in SHARE_CASES:
+        ctx.case_seen(c[1], True)
+    ctx.coq_check_cases(["Lib.Base", "Lib.PyStr", "Lib.ImpExpTy", "Model.ImpExp"], "sdb * list share_step", "chk_share",
+                        SHARE_CASES, shard=12, label="share", diag="diag_share")
+    del SHARE_CASES[:]
 
     # (3) relying party
     for _ in range(4 if q else 80):
